@@ -29,6 +29,79 @@ TRUSTED = ['C16: os.path.exists / os.path.isfile / os.access are arbitrary oracl
 ASSUMPTIONS = ['POSIX path semantics (os.sep == "/")', 'os.getcwd() is an absolute path',
                'no symbolic links below the root (lexical containment = physical containment)']
 
+
+# --------------------------------------------------------------------------
+# dev-only line coverage of the anchored functions:  VERIF_COVERAGE=1 ./check Cxx --no-coq
+# --------------------------------------------------------------------------
+class Coverage:
+    """records which lines of the named functions run (sys.settrace, only while a run_impl is active);
+    prints reached/total and the unreached line numbers at process exit"""
+
+    def __init__(self, pid, targets):
+        self.pid = pid
+        self.targets = targets          # [(module name, function name)]
+        self.codes = None
+        self.hit = set()
+        self.on = os.environ.get('VERIF_COVERAGE') == '1'
+        if self.on:
+            atexit.register(self.report)
+
+    def _load(self):
+        import importlib
+        self.codes = {}
+        for mod, fn in self.targets:
+            f = getattr(importlib.import_module(mod), fn)
+            self._add(f.__code__, '%s.%s' % (mod.split('.')[-1], fn))
+
+    def _add(self, code, name):
+        self.codes[code] = name
+        for c in code.co_consts:
+            if hasattr(c, 'co_code'):
+                self._add(c, name)
+
+    def _tracer(self, frame, event, arg):
+        if frame.f_code in self.codes:
+            return self._local
+        return None
+
+    def _local(self, frame, event, arg):
+        if event == 'line':
+            self.hit.add((frame.f_code, frame.f_lineno))
+        return self._local
+
+    def __enter__(self):
+        if self.on:
+            if self.codes is None:
+                self._load()
+            import sys
+            sys.settrace(self._tracer)
+
+    def __exit__(self, *a):
+        if self.on:
+            import sys
+            sys.settrace(None)
+
+    def report(self):
+        import sys
+        if self.codes is None:
+            return
+        tot = got = 0
+        for code, name in self.codes.items():
+            lines = sorted({ln for _, _, ln in code.co_lines() if ln is not None and ln != code.co_firstlineno})
+            if not lines:
+                continue
+            miss = [ln for ln in lines if (code, ln) not in self.hit]
+            tot += len(lines)
+            got += len(lines) - len(miss)
+            print('COVERAGE %s %s (%s): %d/%d lines%s' % (self.pid, name, code.co_name, len(lines) - len(miss), len(lines),
+                                                         '' if not miss else '  unreached: %s' % miss), file=sys.stderr)
+        print('COVERAGE %s total: %d/%d' % (self.pid, got, tot), file=sys.stderr)
+
+
+ANCHORED = [('ombott.static_stream', 'static_file'), ('ombott.static_stream', 'get_first_range'),
+            ('ombott.static_stream', '_file_iter_range'), ('ombott.common_helpers', 'parse_date')]
+COV = Coverage('C16', ANCHORED[:1])
+
 _T = None
 OUT_MARK = b'OUTSIDE-THE-ROOT'
 IN_MARK = b'INSIDE-THE-ROOT'
@@ -304,7 +377,8 @@ def run_impl(case):
     ss.os = _OsProxy(log, case['deny'])
     resp = None
     try:
-        resp = ombott.static_file(name, root)
+        with COV:
+            resp = ombott.static_file(name, root)
     finally:
         ss.os = saved_os
         if had_open:
